@@ -743,7 +743,7 @@ var meNontrivial = map[string][]string{
 
 func meCaseCount(e vEnv) int64 {
 	if e.Tier == "thorough" {
-		return 3000000
+		return 12000000
 	}
 	return 200000
 }
